@@ -106,6 +106,20 @@ class ConnWorld:
             self.objs[n] = o
             m = self.model[n] = MObj()
             m.value = o.v
+        self.blobs = ()
+        if kind == 'Fb':
+            # an existing blob: its "value" is its bytes
+            Blob = env.mod('ZODB.blob').Blob
+            o = Blob()
+            data = b'blob-%03d' % self.newval()
+            with o.open('w') as f:
+                f.write(data)
+            root['B'] = o
+            self.objs['B'] = o
+            m = self.model['B'] = MObj()
+            m.committed = m.value = data
+            m.c_in_root = m.in_root = m.owned = True
+            self.blobs = ('B',)
         env.CLOCK.now += 1
         self.tm.commit()
         self.tm2 = transaction.TransactionManager()
@@ -140,7 +154,11 @@ class ConnWorld:
         for k in kinds:
             if k == 'mod':
                 ops += [('mod', n) for n in m
-                        if (m[n].owned or n in NEW) and n in spec['objects']]
+                        if (m[n].owned or n in NEW) and n in spec['objects']
+                        and n not in self.blobs]
+            elif k == 'bwrite':
+                ops += [('bwrite', n) for n in self.blobs
+                        if n in spec['objects']]
             elif k == 'link':
                 ops += [('link', n) for n in NEW if n in spec['objects']
                         and not m[n].in_root]
@@ -242,6 +260,15 @@ class ConnWorld:
                 m[n].dirty = True
                 self.joined = True
             return 'mod'
+        if k == 'bwrite':
+            n = op[1]
+            data = b'blob-%03d' % self.newval()
+            with self.objs[n].open('w') as f:
+                f.write(data)
+            m[n].value = data
+            m[n].dirty = True
+            self.joined = True
+            return 'bwrite'
         if k == 'link':
             n = op[1]
             root[n] = self.objs[n]
@@ -402,7 +429,7 @@ class ConnWorld:
                         name), dict(obj=name, jar=repr(o._p_jar),
                                     oid=o._p_oid))
                     continue
-                r = call(lambda: o.v)
+                r = call(lambda: self._val(o))
                 if r != mo.value:
                     self.bad('state', 'wrong-value:%s' % self._kindof(name),
                              dict(obj=name, expected=mo.value, got=repr(r)))
@@ -453,7 +480,7 @@ class ConnWorld:
         oroot = self.obs.root()
         got = {}
         for key in sorted(oroot.keys()):
-            x = call(lambda: oroot[key].v)
+            x = call(lambda: self._val(oroot[key]))
             got[key] = x if not isinstance(x, Exc) else repr(x)
         wantc = {nm: mo.committed for nm, mo in m.items() if mo.c_in_root}
         n += 1
@@ -461,8 +488,16 @@ class ConnWorld:
             self.bad('isolated', 'observer', dict(expected=wantc, got=got))
         return n
 
+    @staticmethod
+    def _val(o):
+        if hasattr(o, 'consumeFile'):       # a Blob
+            with o.open('r') as f:
+                return f.read()
+        return o.v
+
     def _kindof(self, name):
-        return 'new' if name in NEW else 'existing'
+        return 'new' if name in NEW else (
+            'blob' if name in self.blobs else 'existing')
 
     def _oids_of_txn(self, tid):
         it = self.storage.iterator(tid, tid)
